@@ -324,6 +324,8 @@ def case_analysis(run, P, b, T, succ):
                     if recv[0] == 'call' and recv[1].endswith('::path_mut') and recv[2][0][:2] == ('arg', 1):
                         kinds.add('own')
             kind = 'copy' if 'copy' in kinds else 'merge' if 'merge' in kinds else 'own' if 'own' in kinds else 'none'
+            if 'copy' in kinds and 'own' in kinds:
+                run.violation('cases|copy-normalised', f'{P.where(b)} resolve: on a path that takes the base path (reference with an empty path) the path is also normalised — RFC 3986 5.2.2 takes the base path verbatim (T.path = Base.path)')
             S = next((v for (a, v) in asm if a == 'S'), None)
             A = next((v for (a, v) in asm if a == 'A'), None)
             unknown = [a for (a, v) in asm if a.startswith('?')]
